@@ -65,10 +65,73 @@ pub trait Family: Sync {
     fn workers(&self) -> Option<usize> {
         None
     }
+    /// True if the workers of this family are to be the AddressSanitizer build of this harness (`asan_exe()`),
+    /// so that an invalid memory access of the subject ends the worker at once instead of going unnoticed.
+    fn sanitized(&self) -> bool {
+        false
+    }
     /// Signature to use if the worker dies / hangs while running case idx.
     fn crash_sig(&self, idx: u64, how: &str) -> String {
         let _ = idx;
         format!("{}|{}", self.name(), how)
+    }
+}
+
+/// A family (or the index range `from .. from + count` of it) run once more in workers built with AddressSanitizer.
+/// The cases and their oracles are the inner family's; what is added is that a read or write of freed or foreign
+/// memory by the subject ends the worker with a report, which the engine turns into a crash violation.
+pub struct Sanitized {
+    pub inner: Box<dyn Family>,
+    pub from: u64,
+    pub count: u64,
+}
+impl Sanitized {
+    pub fn all(inner: Box<dyn Family>) -> Self {
+        let count = inner.len();
+        Sanitized { inner, from: 0, count }
+    }
+    pub fn tail(inner: Box<dyn Family>, count: u64) -> Self {
+        let n = inner.len();
+        let count = count.min(n);
+        Sanitized { inner, from: n - count, count }
+    }
+}
+impl Family for Sanitized {
+    fn name(&self) -> String {
+        let n = self.inner.name();
+        let (head, rest) = n.split_once('/').unwrap_or((n.as_str(), ""));
+        if self.count == self.inner.len() {
+            format!("{head}-under-address-sanitizer/{rest}")
+        } else {
+            format!("{head}-under-address-sanitizer/cases {}..{} of: {rest}", self.from, self.from + self.count)
+        }
+    }
+    fn len(&self) -> u64 {
+        self.count
+    }
+    fn run(&self, idx: u64) -> CaseOut {
+        let mut o = self.inner.run(self.from + idx);
+        o.hash ^= 0x5a5a_0000_0000_0000; // a case of its own: same input, different build of the subject
+        o
+    }
+    fn describe(&self, idx: u64) -> Value {
+        let mut d = self.inner.describe(self.from + idx);
+        if let Some(m) = d.as_object_mut() {
+            m.insert("build".into(), json!("harness and subject compiled with -Zsanitizer=address (nightly toolchain)"));
+        }
+        d
+    }
+    fn hang_secs(&self) -> f64 {
+        self.inner.hang_secs() * 5.0
+    }
+    fn workers(&self) -> Option<usize> {
+        self.inner.workers()
+    }
+    fn sanitized(&self) -> bool {
+        true
+    }
+    fn crash_sig(&self, idx: u64, how: &str) -> String {
+        self.inner.crash_sig(self.from + idx, how)
     }
 }
 
@@ -127,6 +190,15 @@ impl Slot {
 
 /// Worker entry: explore shard `w` of `nw` of family `fam`, starting at index `from`.
 pub fn worker_main(fam: &dyn Family, w: u64, nw: u64, from: u64, slot_path: &str, out_path: &str, deadline_s: f64) {
+    if std::env::var("MC_SANITIZED_WORKER").is_ok() && std::env::var("MC_SANITIZED_WORKER_INNER").is_err() {
+        // the instrumented build uses several times the stack of the normal one: give the cases a stack that is
+        // larger by more than that factor (8 MiB -> 96 MiB), so that only the normal build judges stack depth
+        std::env::set_var("MC_SANITIZED_WORKER_INNER", "1");
+        std::thread::scope(|sc| {
+            std::thread::Builder::new().stack_size(96 << 20).spawn_scoped(sc, || worker_main(fam, w, nw, from, slot_path, out_path, deadline_s)).unwrap().join().unwrap();
+        });
+        return;
+    }
     install_quiet_panic_hook();
     let slot = Slot::open(PathBuf::from(slot_path));
     let mut out = std::io::BufWriter::new(std::fs::OpenOptions::new().create(true).append(true).open(out_path).unwrap());
@@ -211,10 +283,30 @@ pub struct EngineCfg {
     pub scratch: PathBuf,
 }
 
-fn spawn_worker(cfg: &EngineCfg, fam_idx: usize, w: u64, nw: u64, from: u64, slot_path: &PathBuf, out_path: &PathBuf, deadline: f64) -> Child {
-    let exe = std::env::current_exe().unwrap();
-    Command::new(exe)
-        .arg("--worker")
+/// The AddressSanitizer build of this harness (built by `check` with the nightly toolchain next to the normal one).
+pub fn asan_exe() -> Option<PathBuf> {
+    let exe = std::env::current_exe().ok()?;
+    if exe.to_string_lossy().contains("/asan/") {
+        return Some(exe);
+    }
+    // <root>/.build/release/mc -> <root>/.build/asan/x86_64-unknown-linux-gnu/release/mc
+    let p = exe.parent()?.parent()?.join("asan/x86_64-unknown-linux-gnu/release").join(exe.file_name()?);
+    // usable only if it is at least as new as the normal build (both are rebuilt by `check`)
+    if p.exists() {
+        Some(p)
+    } else {
+        None
+    }
+}
+
+fn spawn_worker(cfg: &EngineCfg, sanitized: bool, fam_idx: usize, w: u64, nw: u64, from: u64, slot_path: &PathBuf, out_path: &PathBuf, deadline: f64) -> Child {
+    let exe = if sanitized { asan_exe().expect("asan build") } else { std::env::current_exe().unwrap() };
+    let mut c = Command::new(exe);
+    if sanitized {
+        c.env("ASAN_OPTIONS", "detect_leaks=0:abort_on_error=1:malloc_context_size=8:handle_segv=1");
+        c.env("MC_SANITIZED_WORKER", "1");
+    }
+    c.arg("--worker")
         .arg(&cfg.prop)
         .arg(&cfg.tier)
         .arg(fam_idx.to_string())
@@ -264,6 +356,13 @@ pub fn run_families(cfg: &EngineCfg, fams: &[Box<dyn Family>]) -> RunResult {
             res.families.push(st);
             continue;
         }
+        if fam.sanitized() && asan_exe().is_none() {
+            // the layer cannot run here (no nightly toolchain / sanitizer runtime): said so, never a verdict
+            eprintln!("{}: AddressSanitizer build of the harness not available: family '{}' skipped", cfg.prop, truncate_name(&fam.name()));
+            st.extra.insert("asan_layer_skipped".into(), 1);
+            res.families.push(st);
+            continue;
+        }
         let nw = (fam.workers().unwrap_or(cfg.nworkers) as u64).min(n).max(1);
         let mut procs: Vec<WorkerProc> = vec![];
         for w in 0..nw {
@@ -273,7 +372,7 @@ pub fn run_families(cfg: &EngineCfg, fams: &[Box<dyn Family>]) -> RunResult {
             let _ = std::fs::remove_file(format!("{}.hashes", out_path.display()));
             let slot = Slot::create(slot_path.clone());
             slot.set(0, w);
-            let child = spawn_worker(cfg, fi, w, nw, 0, &slot_path, &out_path, remaining);
+            let child = spawn_worker(cfg, fam.sanitized(), fi, w, nw, 0, &slot_path, &out_path, remaining);
             procs.push(WorkerProc { child, slot, out_path: out_path.clone(), w, last_idx: w, last_beat: 0, last_change: Instant::now(), segments: vec![out_path], lost_evals: 0, lost_steps: 0, lost_validated: 0 });
         }
         let hang = Duration::from_secs_f64(fam.hang_secs());
@@ -327,8 +426,13 @@ pub fn run_families(cfg: &EngineCfg, fams: &[Box<dyn Family>]) -> RunResult {
                         eprintln!("MACHINERY: worker {}/{} of family {} died after completion: {how}: {tail}", p.w, nw, fam.name());
                         std::process::exit(2);
                     }
-                    let how_class = classify_crash(&how, &tail);
+                    let asan = asan_class(&p.slot.path);
+                    let how_class = match &asan {
+                        Some(a) => format!("crash:{a}"),
+                        None => classify_crash(&how, &tail),
+                    };
                     let sig = fam.crash_sig(at, &how_class);
+                    let tail = if asan.is_some() { asan_report_head(&p.slot.path) } else { tail };
                     res.violations.push((fam.name(), at, Violation { sig, msg: format!("worker died ({how}) while running case {at}; stderr tail: {tail}") }));
                     // restart after the crashing case
                     let next = at + nw;
@@ -356,7 +460,7 @@ pub fn run_families(cfg: &EngineCfg, fams: &[Box<dyn Family>]) -> RunResult {
                     p.slot.set(3, 0);
                     p.slot.set(6, 0);
                     let remaining = (cfg.wall_cap_s - t_start.elapsed().as_secs_f64()).max(1.0);
-                    p.child = spawn_worker(cfg, fi, p.w, nw, next, &p.slot.path, &out_path, remaining);
+                    p.child = spawn_worker(cfg, fam.sanitized(), fi, p.w, nw, next, &p.slot.path, &out_path, remaining);
                     p.out_path = out_path.clone();
                     p.segments.push(out_path);
                     p.last_idx = next;
@@ -425,6 +529,28 @@ pub fn run_families(cfg: &EngineCfg, fams: &[Box<dyn Family>]) -> RunResult {
         res.families.push(st);
     }
     res
+}
+
+fn truncate_name(n: &str) -> String {
+    n.chars().take(80).collect()
+}
+
+/// "ERROR: AddressSanitizer: <kind> ..." + "SUMMARY: ... in <function>" of a sanitizer report, if there is one.
+fn asan_class(slot_path: &PathBuf) -> Option<String> {
+    let s = String::from_utf8_lossy(&std::fs::read(format!("{}.stderr", slot_path.display())).unwrap_or_default()).to_string();
+    let at = s.find("ERROR: AddressSanitizer: ")?;
+    let kind: String = s[at + 25..].chars().take_while(|c| !c.is_whitespace()).collect();
+    let func = s.lines().find(|l| l.starts_with("SUMMARY: AddressSanitizer")).and_then(|l| l.rfind(" in ").map(|i| l[i + 4..].trim().to_string())).unwrap_or_default();
+    // the first frames inside the subject, for the message
+    Some(format!("asan:{kind}@{}", func.chars().take(120).collect::<String>()))
+}
+
+fn asan_report_head(slot_path: &PathBuf) -> String {
+    let s = String::from_utf8_lossy(&std::fs::read(format!("{}.stderr", slot_path.display())).unwrap_or_default()).to_string();
+    match s.find("ERROR: AddressSanitizer: ") {
+        Some(at) => s[at..].lines().take(14).collect::<Vec<_>>().join("\n"),
+        None => String::new(),
+    }
 }
 
 fn classify_crash(how: &str, tail: &str) -> String {
